@@ -125,6 +125,31 @@ def b_history(ctx):
             if bad:
                 ctx.fail(f'C18:history:{an}', f'{an} on {name}: analysing the same data again after other analyses changes {bad}: {dict(ref[["SD", "k_1", "ND", "TN", "TS"]])} -> {dict(got[["SD", "k_1", "ND", "TN", "TS"]])}',
                          {'dataset': name, 'analyzer': an})
+        # ONE FatigueData object handed to all analyzers in turn (fd = df.fatigue_data; Elementary(fd), MaxLikeInf(fd), ...): an analysis does not change the object it
+        # is given - the transition, the zones and every later analysis stay what they are for a fresh object (added after seed C18-f let MaxLikeInf move the
+        # object's finite/infinite transition to get a start value)
+        import warnings
+        import pylife.materialdata.woehler as woehler
+        fd = woehler.determine_fractures(df, lim).fatigue_data
+        tr0, nf0, ni0 = float(fd.finite_infinite_transition), len(fd.finite_zone), len(fd.infinite_zone)
+        cls = {'Elementary': woehler.Elementary, 'Probit': woehler.Probit, 'MaxLikeInf': woehler.MaxLikeInf, 'MaxLikeFull': woehler.MaxLikeFull}
+        for order in (['MaxLikeInf', 'Elementary', 'Probit', 'MaxLikeFull'], ['MaxLikeFull', 'Probit', 'MaxLikeInf', 'Elementary']):
+            for an in order:
+                if an not in first:
+                    continue
+                with warnings.catch_warnings():
+                    warnings.simplefilter('ignore')
+                    try:
+                        got = cls[an](fd).analyze()
+                    except Exception as e:   # noqa
+                        ctx.fail(f'C18:shared-fatigue-data:{an}:raises:{type(e).__name__}', f'{an} on {name} with a FatigueData object other analyzers have used raises {type(e).__name__}: {e}', {'dataset': name})
+                        continue
+                ctx.case(True, key=(name, an, 'shared-fd', order[0]))
+                bad = [k for k in ('SD', 'k_1', 'ND', 'TN', 'TS') if not _close(float(got[k]), float(first[an][k]), 1e-9)]
+                state = (float(fd.finite_infinite_transition), len(fd.finite_zone), len(fd.infinite_zone))
+                if bad or state != (tr0, nf0, ni0):
+                    ctx.fail(f'C18:shared-fatigue-data:{an}', f'{an} on {name} through a FatigueData object that other analyzers have used: {bad} differ from the analysis of a fresh object; transition / zone sizes {state}, before {(tr0, nf0, ni0)}',
+                             {'dataset': name, 'analyzer': an, 'order': order})
     ctx.sample({'history': ['analyze(synthetic-0)', 'analyze(series with one mixed level)', 'analyze(series without run-outs)', 'analyze(exact Basquin data)', 'analyze(synthetic-0) again']})
 
 
